@@ -120,6 +120,44 @@ func (v *PacketDslFormattor) VisitPacket(ctx *gen.PacketContext) interface{} {
 	return formattedDsl.String()
 }
 
+// indentDslLn is AddIndent4ln for formatted DSL text: a doc string (`...`) may span lines, and
+// what stands between the backticks is the documentation text, not layout, so its continuation
+// lines are left as they are. Backticks inside "strings" and // comments do not open a doc string.
+func indentDslLn(s string) string {
+	const indent = "    "
+	var b strings.Builder
+	b.WriteString(indent)
+	inDoc, inString, inComment := false, false, false
+	for i := 0; i < len(s); i++ {
+		c := s[i]
+		b.WriteByte(c)
+		switch {
+		case inDoc:
+			inDoc = c != '`'
+		case inComment:
+			inComment = c != '\n'
+		case inString:
+			if c == '\\' && i+1 < len(s) {
+				i++
+				b.WriteByte(s[i])
+			} else if c == '"' {
+				inString = false
+			}
+		case c == '`':
+			inDoc = true
+		case c == '"':
+			inString = true
+		case c == '/' && i+1 < len(s) && s[i+1] == '/':
+			inComment = true
+		}
+		if c == '\n' && !inDoc {
+			b.WriteString(indent)
+		}
+	}
+	b.WriteString("\n")
+	return b.String()
+}
+
 // VisitPacketDefinition overrides the default implementation for packet definitions.
 func (v *PacketDslFormattor) VisitPacketDefinition(ctx *gen.PacketDefinitionContext) interface{} {
 	var formattedDsl strings.Builder
@@ -137,7 +175,7 @@ func (v *PacketDslFormattor) VisitPacketDefinition(ctx *gen.PacketDefinitionCont
 	for _, fieldCtx := range ctx.AllFieldDefinitionWithAttribute() {
 		if fc, ok := fieldCtx.(*gen.FieldDefinitionWithAttributeContext); ok {
 			formatted := v.VisitFieldDefinitionWithAttribute(fc).(string)
-			formattedDsl.WriteString(AddIndent4ln(formatted))
+			formattedDsl.WriteString(indentDslLn(formatted))
 		}
 	}
 
@@ -278,7 +316,7 @@ func (v *PacketDslFormattor) VisitInerObjectField(ctx *gen.InerObjectFieldContex
 	// iterate over all field definitions
 	for _, decl := range inerObjectDeclaration.AllFieldDefinition() {
 		result := v.VisitFieldDefinition(decl).(string)
-		formattedDsl.WriteString(AddIndent4ln(result))
+		formattedDsl.WriteString(indentDslLn(result))
 	}
 
 	formattedDsl.WriteString("},")
@@ -295,10 +333,10 @@ func (v *PacketDslFormattor) VisitMetaDataDefinition(ctx *gen.MetaDataDefinition
 		switch c := decl.(type) {
 		case *gen.RefMetaDataDeclarationContext:
 			result := v.VisitRefMetaDataDeclaration(c).(string)
-			formattedDsl.WriteString(AddIndent4ln(result))
+			formattedDsl.WriteString(indentDslLn(result))
 		case *gen.MetaDataDeclarationContext:
 			result := v.VisitMetaDataDeclaration(c).(string)
-			formattedDsl.WriteString(AddIndent4ln(result))
+			formattedDsl.WriteString(indentDslLn(result))
 		default:
 			continue
 		}
